@@ -405,7 +405,7 @@ where
     };
     Scenario {
         name: p.name.to_string(),
-        opts: Opts { stale_reads: false, stale_depth: 2, max_spurious: 0, horizon: 60_000, log_ops: false, log_handler_ops: true, reduce: true, no_discipline: false },
+        opts: Opts { stale_reads: false, stale_depth: 2, max_spurious: 0, horizon: 60_000, log_ops: false, log_handler_ops: true, reduce: true, no_discipline: false, nest_value_t1: if E::RAW { 0x900 } else { 0 } },
         signals: vec![S1, S2],
         setup: Box::new(setup),
         threads,
@@ -575,7 +575,8 @@ pub fn scenarios(prop: &str, tier: Tier) -> Vec<Item> {
             let mut p = ip("raw_forever_burst7", prop, Mode::Forever);
             p.deliverers = vec![vec![S1, S1, S1, S1, S1, S1, S1]];
             p.max_rounds = 12;
-            v.push(item(build::<WithRawSiginfo>(p), b(1, 2), "burst of 7 deliveries (longer than the 5-deep buffer)"));
+            p.nest_on_k = vec![S1];
+            v.push(item(build::<WithRawSiginfo>(p), b(1, 2), "burst of 7 deliveries (longer than the 5-deep buffer) + one more nested in the consumer at every boundary of its drain"));
         }
         _ => {
             for (mode, mname) in [(Mode::Poll, "poll"), (Mode::Wait, "wait"), (Mode::Forever, "forever"), (Mode::Pending, "pending")] {
